@@ -137,6 +137,10 @@ class Verdicts:
         self.ev.violations += 1
         return True
 
+    def count(self):
+        """number of violations recorded so far (vacuity rules of later parts do not pre-empt them)"""
+        return len(self.violations)
+
     def finish(self):
         for k in self.reported_known.values():
             print('KNOWN-FINDING: property=%s %s' % (self.pid, k['what']))
